@@ -26,7 +26,7 @@ ASSUMPTIONS = [
     "numpy.einsum and the harness's own gather-based evaluator agree (checked per case)",
     "numpy backend only; autojit / cuquantum / other backends unobserved",
 ]
-REQUIRED_MONITORS = ["value_vs_E1", "step_tensordot", "step_einsum", "step_preprocess"]
+REQUIRED_MONITORS = ["unicode_labels", "value_vs_E1", "step_tensordot", "step_einsum", "step_preprocess"]
 SHARD_TIMEOUT = {"quick": 400, "thorough": 3600}
 
 
@@ -49,7 +49,7 @@ def execute(rep, case, deep=False):
     except Exception as e:  # generator bug, not the library's
         rep.inconclusive_case(f"reference failed: {e!r}")
         return None
-    if net.space() <= 20000 and len(net.size_dict) <= 52:
+    if net.space() <= 20000 and len(net.size_dict) <= 52 and all(ix.isascii() for ix in net.size_dict):
         try:
             npv = np.einsum(net.eq(), *arrays)
             if ref.compare(npv, want, bound, nsum, net.N) is not None:
@@ -69,6 +69,8 @@ def execute(rep, case, deep=False):
     except Exception as e:
         return ("raises", f"{type(e).__name__}: {e} | {traceback.format_exc()[-600:]}")
     rep.mon("value_vs_E1")
+    if not all(ix.isascii() for ix in net.size_dict):
+        rep.mon("unicode_labels")
     if case["kind"] == "int":
         got = np.asarray(got)
         if got.shape != want.shape:
@@ -124,9 +126,27 @@ def check_intermediates(rep, net, tree, arrays, rec, opts, cs):
     return None
 
 
+UNICODE = [chr(c) for c in list(range(945, 970)) + list(range(192, 215)) + list(range(1040, 1060))]
+
+
+def relabel_unicode(rng, net):
+    """give a random subset of the indices non-ASCII labels (user chosen unicode labels; the
+    library itself hands such labels out from the 53rd index on).  The mapping of per-node
+    equations into [a-zA-Z] must not identify distinct indices."""
+    labels = list(net.size_dict)
+    k = rng.randint(1, len(labels))
+    chosen = rng.sample(labels, k)
+    pool = rng.sample(UNICODE, k)
+    ren = dict(zip(chosen, pool))
+    f = lambda ix: ren.get(ix, ix)  # noqa
+    return gen.Net([[f(i) for i in t] for t in net.inputs], [f(i) for i in net.output], {f(k_): v for k_, v in net.size_dict.items()}, net.cls + "+unicode")
+
+
 def gen_case(rng, cs, tier):
     cap = budget(tier, 60000, 400000)
     net = gen.network(rng, 2, budget(tier, 7, 9), cap=cap)
+    if rng.random() < 0.2 and net.size_dict:
+        net = relabel_unicode(rng, net)
     ssa = gen.random_ssa(rng, net.N)
     kind = rng.choice(["float", "complex", "int"])
     opts = ct.random_opts(rng)
